@@ -16,6 +16,7 @@ import (
 	"os"
 	"sort"
 	"strings"
+	"time"
 	"sync"
 
 	"verifharness/internal/hk"
@@ -153,14 +154,19 @@ func main() {
 		if f.extra != nil && !*noExtra {
 			f.extra(t, *tier, root.Fork())
 		}
+		slow := 0
 		for i := 0; i < *n; i++ {
 			r := root.Fork()
 			s := f.gen(r, *tier, i)
 			t.Case(fmt.Sprintf("g%d", i))
+			t0 := time.Now()
 			f.exec(t, s)
 			t.End()
+			if time.Since(t0) >= stepTimeout-time.Second {
+				slow++ // some call sat in a watchdog for its whole period
+			}
 			t.mu.Lock()
-			st := t.stuck
+			st := t.stuck + slow
 			t.mu.Unlock()
 			if st >= 4 {
 				// every stuck case costs two watchdog periods; four are enough evidence (each is reported with its script)
